@@ -9,6 +9,7 @@ META = {
     "level_text": "Machine-checked proof (Coq 8.16, axiom-free) that the Gallina model of CouldMatch::could_match (zip_tys table of MatchZipper, derived Zip impls for generic args, trait refs, where clauses, domain goals, binders, slices) never rejects a pair that instantiations make syntactically equal, for all terms and all kind-preserving instantiations; tied to /repo on every run by comparing the real could_match with the model on an exhaustive sweep of head-constructor pairs and on mutated random pairs, and by checking on the implementation alone that whenever the real unifier succeeds the real filter said true.",
     "level_note": "Trusted: Coq kernel; hand-written model coq/Ir/CouldMatch.v tied by correspondence on generated pairs (bounded depth); 'unifiable' is formalised as equality under instantiation of bound/inference variables, lifetimes, consts and type-position aliases, which real unification success implies; harness conversion. The filter call sites (impls_for_trait, build_table, solve_from_clauses) are exercised end to end by C01/C04 runs, not modelled here.",
     "design_ref": "DESIGN.md section 4 C18",
+    "bins": ["irbin"],
     "assumptions": ["ADT/fn-def variance tables have at least as many entries as the substitution (true for lowered programs)"],
 }
 
